@@ -7,7 +7,7 @@
 #   (c) whole-manifest loading: grammar-mutated / truncated / random byte strings through the real ninja::ManifestLoader with
 #       exact-size unterminated heap buffers under ASan
 #   (d) the dependency-file parsers (props/c11.py: deps_part) and the Ninja lexer (props/c17lex.py: lexer_part) when available
-import os, re, json, shutil, itertools
+import os, re, json, shutil, itertools, subprocess, tempfile, threading, select, time
 import vlib
 from vlib import hx
 
@@ -28,35 +28,66 @@ def classify(rc, err):
     return "signal%d" % (-rc) if rc < 0 else "exit%d" % rc
 
 def run_batch(binary, reqs, env=None, per_timeout=30):
-    """One request per line through a line-protocol driver. A request that kills or stalls the driver is attributed
-    (re-run alone) and the batch resumes after it. Returns a list of ("ok", answer) | ("crash"|"hang", dict)."""
+    """One request per line through a line-protocol driver, answers read with a deadline per request. The request that kills
+    the driver (crash) or gets no answer in time (hang) is recorded and the batch resumes after it.
+    Returns a list of ("ok", answer) | ("crash"|"hang", dict(rc, kind, stderr))."""
     res = [None] * len(reqs)
     i = 0
+    os.makedirs(TMP, exist_ok=True)
     while i < len(reqs):
-        chunk = reqs[i:]
-        rc, out, err = vlib.run_lines(binary, chunk, timeout=per_timeout + 60 + 0.02 * len(chunk), env=env)
-        if rc != 0:
-            while out and out[-1] == "":      # no (or an unfinished) answer line for the request that killed the driver
-                out.pop()
-        n = min(len(out), len(chunk))
-        for k in range(n):
-            res[i + k] = ("ok", out[k])
-        if n == len(chunk) and rc == 0:
-            break
-        j = i + n
-        if j >= len(reqs):
-            break
-        rc1, o1, e1 = vlib.sh([binary], input=reqs[j] + "\n", timeout=per_timeout, env=env)
-        if rc1 == 0 and o1.strip("\n"):
-            res[j] = ("ok", o1.split("\n")[0])
-        else:
-            kind = classify(rc1, e1)
+        errf = tempfile.TemporaryFile(dir=TMP)
+        p = subprocess.Popen([binary], stdin=subprocess.PIPE, stdout=subprocess.PIPE, stderr=errf, env=env)
+        payload = ("\n".join(reqs[i:]) + "\n").encode()
+        def feed(p=p, payload=payload):
+            try:
+                p.stdin.write(payload)
+                p.stdin.close()
+            except (BrokenPipeError, OSError, ValueError):
+                pass
+        th = threading.Thread(target=feed, daemon=True)
+        th.start()
+        fd = p.stdout.fileno()
+        buf = b""
+        j = i
+        fate = None
+        deadline = time.time() + per_timeout
+        while j < len(reqs):
+            nl = buf.find(b"\n")
+            if nl >= 0:
+                res[j] = ("ok", buf[:nl].decode("utf-8", "replace"))
+                buf = buf[nl + 1:]
+                j += 1
+                deadline = time.time() + per_timeout
+                continue
+            left = deadline - time.time()
+            if left <= 0:
+                fate = "hang"
+                break
+            r, _, _ = select.select([fd], [], [], min(left, 1.0))
+            if not r:
+                continue
+            data = os.read(fd, 1 << 16)
+            if not data:
+                fate = "crash"
+                break
+            buf += data
+        if fate == "hang":
+            p.kill()
+        try:
+            rc = p.wait(timeout=20)
+        except subprocess.TimeoutExpired:
+            p.kill(); rc = p.wait()
+        th.join(timeout=5)
+        p.stdout.close()
+        if fate is not None:
+            errf.seek(0)
+            e1 = errf.read().decode("utf-8", "replace")
+            kind = "hang" if fate == "hang" else classify(rc, e1)
             lines = [l for l in e1.splitlines() if "ERROR" in l or "runtime error" in l or "SUMMARY" in l or l.lstrip().startswith("#")]
-            res[j] = ("hang" if kind == "hang" else "crash", dict(rc=rc1, kind=kind, stderr="\n".join(lines[:14])[-2500:] or e1[-1500:]))
-        i = j + 1
-    for k in range(len(res)):
-        if res[k] is None:
-            res[k] = ("crash", dict(rc=None, kind="no-answer", stderr=""))
+            res[j] = (fate, dict(rc=rc, kind=kind, timeout_s=per_timeout if fate == "hang" else None, stderr="\n".join(lines[:14])[-2500:] or e1[-1500:]))
+            j += 1
+        errf.close()
+        i = j
     return res
 
 # ------------------------------------------------------------------ YAML trees and their rendering
@@ -600,6 +631,7 @@ def bfile_part(chk, drv, drv_asan, model):
 
 # ------------------------------------------------------------------ whole-manifest loading
 
+NINJA_TIMEOUT = 10      # seconds per manifest; the slowest terminating case takes milliseconds
 NINJA_SEEDS = [
     b"# comment\ncflags = -O2 $\n    -g\nrule cc\n  command = cc $cflags -c $in -o $out\n  description = CC $out\n  depfile = $out.d\n  deps = gcc\nrule link\n  command = ld $in -o $out\npool p\n  depth = 2\n"
     b"build a.o: cc a.c | a.h || gen\n  cflags = -O0 ${cflags}\n  pool = p\nbuild b.o: cc b$ c.c\nbuild prog: link a.o b.o\nbuild gen: phony\ndefault prog\n",
@@ -626,7 +658,9 @@ def ninja_cases(chk):
     one("self-include-prefix", b"a = 1\nrule r\n  command = x\ninclude build.ninja\nbuild o: r\n")
     one("mutual-include", b"include other.ninja\n", other_ninja=b"include build.ninja\n")
     one("mutual-subninja", b"subninja other.ninja\n", other_ninja=b"rule r\n  command = x\nsubninja build.ninja\n")
-    one("include-chain-63", b"include build.ninja\n")
+    one("self-include-twice", b"include build.ninja\ninclude build.ninja\n")
+    one("self-subninja-twice", b"subninja build.ninja\nsubninja build.ninja\n")
+    one("mutual-include-twice", b"include other.ninja\ninclude other.ninja\n", other_ninja=b"include build.ninja\ninclude build.ninja\n")
     one("include-missing", b"include nothere.ninja\nsubninja nothere2.ninja\nbuild a: phony\n")
     one("include-dir", b"include .\ninclude ..\ninclude /\n")
     one("include-var", b"f = other.ninja\ninclude $f\n", other_ninja=b"x = 1\n")
@@ -702,7 +736,7 @@ def ninja_part(chk, drv_asan):
                 open(os.path.join(d, fn), "wb").write(data)
             p = os.path.join(d, "build.ninja")
         paths.append(p)
-    res = run_batch(drv_asan, ["ninja_load " + hx(p.encode()) for p in paths], env=ASAN_ENV, per_timeout=30)
+    res = run_batch(drv_asan, ["ninja_load " + hx(p.encode()) for p in paths], env=ASAN_ENV, per_timeout=NINJA_TIMEOUT)
     stats = dict(manifests=len(cases), loaded=0, with_errors=0, commands=0, files_read=0, first_messages=set())
     for (key, files), p, (st, ans) in zip(cases, paths, res):
         rp = dict(case=key, files={k: v.hex() for k, v in files.items()}, main="build.ninja", file=p,
@@ -739,6 +773,8 @@ def ninja_part(chk, drv_asan):
     llb = vlib.llbuild_bin()
     pick = [i for i, c in enumerate(cases) if c[0].startswith(("self", "mutual", "include", "tail"))] + rng.sample(range(len(cases)), min(len(cases), chk.n(100, 2500)))
     for i in pick:
+        if res[i][0] != "ok":
+            continue            # already reported through the driver
         rc, out, err = vlib.sh([llb, "ninja", "load-manifest", paths[i]], timeout=30)
         if rc not in (0, 1):
             chk.violation("ninja-cli-%s" % ("hang" if rc == -9 else "signal%d" % -rc if rc < 0 else "exit%d" % rc),
